@@ -12,13 +12,20 @@ from runner import PropertyCheck, Broken, Violation
 class Check(PropertyCheck):
     pid = "C07"
     props_module = "Properties.Properties_C07"
-    extra_targets = ["Extract/ExtractDec.vo"]
-    gen_files = declib.DEC_GEN + ["ErrTab.v"] + ["ParseTab.v"]
-    extra_props = ["Properties.Properties_C15parse"]
+    extra_targets = ["Extract/ExtractDec.vo", "Extract/ExtractDataFail.vo"]
+    gen_files = declib.DEC_GEN + ["ErrTab.v"] + ["ParseTab.v", "IoFailTab.v", "DataFailTab.v"]
+    extra_props = ["Properties.Properties_C15parse", "Properties.Properties_C07proc"]
     trusted_base = declib.PARSE_TRUSTED + declib.DEC_TRUSTED + [
-        "process level (exit status, stderr, output file removal, absence of hangs/signals) is observed on the real binary, "
-        "not proved here: main-loop model in C16, scheduler termination in C11, memory safety in C08"]
-    assumptions = ["invalid = rejected by the strict reference ref_decode (validated against libbz2)"]
+        "process level: the exit path of a data error is proved on the thread/signal state machine of C21 (IoFail/IoFailModel.v) for "
+        "every regenerated data-error call site (lib/gen_iofail.py::gen_datafail -> Gen/DataFailTab.v: do_parse, do_reorder, work()), "
+        "every error code, every state of the other threads and every schedule: exit 1, never 0/4/signal death, the diagnostic is "
+        "printed before the failure is signalled, no stuck state, < 64 own steps (Properties_C07proc); tied by runs of the real binary "
+        "on damaged inputs in six modes (checks/c07proc_part.py: exit status, complete stderr bytes, directory contents, H3 trace site)",
+        "NOT proved: that the process reaches the site belonging to the codec verdict (with several workers another error of the same "
+        "file may be reported first); that the pipeline cannot complete while the failing task is in flight (SchedX accounting); output "
+        "file removal on failure is C16's model; absence of crashes is C08"]
+    assumptions = ["invalid = rejected by the strict reference ref_decode (validated against libbz2)",
+                   "one failure per run; no signals from outside"]
 
     def gen(self):
         rng = self.rng
@@ -53,8 +60,18 @@ class Check(PropertyCheck):
             k = t.split(":")[0] + ("/valid" if r.startswith("OK") else "/invalid")
             hist[k] = hist.get(k, 0) + 1
         self.invalid = [i for i, r in enumerate(self.ref) if not r.startswith("OK")]
+        try:
+            import c07proc_part
+            proc = c07proc_part.correspond(self) or {}
+        except vlib.BuildError:
+            raise
+        except Exception as e:
+            proc = {"evaluations": 0, "distinct_nontrivial": 0, "rule": "c07proc_part crashed"}
+            self.broken.append(Broken("correspondence", "c07proc_part.correspond crashed", repr(e)[:800]))
         return {
-            "evaluations": len(self.files), "distinct_nontrivial": len(set(self.files[i] for i in self.invalid)),
+            "process_level": {k: v for k, v in proc.items() if k != "samples"},
+            "evaluations": len(self.files) + int(proc.get("evaluations", 0)),
+            "distinct_nontrivial": len(set(self.files[i] for i in self.invalid)) + int(proc.get("distinct_nontrivial", 0)),
             "rule": "every truncation point of crafted multi-block/multi-stream files, the 31-entry defect catalogue, 1-3 random bit "
                     "flips, empty/short/wrong-magic files; non-trivial = distinct files the strict reference rejects",
             "samples": [{"tag": self.tags[i], "file_hex": self.files[i].hex()[:120], "impl": self.impl[i][0]} for i in self.invalid[:3]],
